@@ -207,7 +207,13 @@ def _features(m, spec, desc, ctx, rng, feat):
             ctx.count(1, key=hkey(tuple(desc['seed']), q, perm), nontrivial=(perm != tuple(sorted(perm))) or rows is not None,
                       cell=('get_features', feat, 'k%d' % k))
             form = (q + len(perm)) % 3            # ids / channels as arrays or plain lists
-            r = call(m.get_features, ids if form != 1 else ids.tolist(), ch if form != 2 else ch.tolist())
+            idt = ['int64', 'int32', 'uint32', 'uint64', 'uint16'][(q + len(perm) + k) % 5]        # id arrays of any integer dtype, also read-only
+            ids_arg = ids.astype(idt) if ns < 60000 or idt != 'uint16' else ids
+            ch_arg = ch.astype(['int64', 'int32', 'uint16', 'uint8'][(q + k) % 4])
+            if (q + k) % 2:
+                ids_arg.flags.writeable = False
+                ch_arg.flags.writeable = False
+            r = call(m.get_features, ids_arg if form != 1 else ids.tolist(), ch_arg if form != 2 else ch.tolist())
             f = {'route': 'get_features', 'store': feat}
             if not r.ok:
                 ctx.violation('raised', dict(desc, request=req), 'get_features raised %r' % r.exc, dict(f, exc=r.exc_name), tb=r.tb)
@@ -274,7 +280,7 @@ def _tfeatures(m, spec, desc, ctx, rng):
             ids = rng.permutation(ns)[:int(rng.integers(1, ns + 1))]
         req = {'spike_ids': ids.tolist(), 'rows': rows is not None}
         ctx.count(1, key=hkey(tuple(desc['seed']), 'tf', q), nontrivial=True, cell=('get_template_features', 'rows%d' % (rows is not None)))
-        r = call(m.get_template_features, ids)
+        r = call(m.get_template_features, ids.astype(['int64', 'uint32', 'int32', 'uint64'][q % 4]))
         f = {'route': 'get_template_features', 'rows': rows is not None}
         if not r.ok:
             ctx.violation('raised', dict(desc, request=req), 'get_template_features raised %r' % r.exc, dict(f, exc=r.exc_name), tb=r.tb)
